@@ -33,11 +33,15 @@ lane() {
   mkdir -p "$G"
   (cd "$VERIF/gensim" && tar cf - --exclude=target --exclude=build.log .) | (cd "$G" && tar xf -)
   # the simulator names the repository by absolute path in a handful of places
-  grep -rl '/repo' "$G" --include='*.rs' --include='*.toml' | xargs sed -i "s#/repo#$REPO#g"
+  grep -rl '/repo' "$G" --include='*.rs' --include='*.toml' | xargs sed -i "s#\"/repo#\"$REPO#g"
   local BIN="$G/target/release/gensim"
+  local fallback=""
   build() {
-    (cd "$G" && cargo build --release --offline --quiet 2>"$G/build.log") || \
+    fallback=""
+    if ! (cd "$G" && cargo build --release --offline --quiet 2>"$G/build.log"); then
       (cd "$G" && cargo build --release --offline --quiet --no-default-features 2>"$G/build.log") || return 1
+      fallback=" [built without the Path wrappers]"
+    fi
     # real binaries: built from and run in a scratch copy of the lane's tree (as run.sh does)
     rm -f "$G/target/realbins/debug/generate_layout" "$G/target/realbins/debug/generate_likelysubtags"
     mkdir -p "$G/target/realws"
@@ -68,7 +72,7 @@ lane() {
       viol=$(grep -c '^VIOLATION' "$OUT/log")
       first=$(grep -m1 '^violation:' "$OUT/log" | cut -c1-140)
       rp=$(grep -m1 '^VIOLATION' "$OUT/log" | sed 's/.*replay=//')
-      got="exit$rc"; detail="$viol violation line(s); $first"
+      got="exit$rc"; detail="$viol violation line(s);$fallback $first"
       [ $rc -eq 2 ] && detail="$detail $(grep -m1 HARNESS-ERROR "$OUT/log" | cut -c1-160)"
       if [ $rc -eq 1 ] && [ -n "$rp" ]; then
         "$BIN" replay "$rp" --quiet 1 >"$OUT/replay.log" 2>&1; local r1=$?
